@@ -26,7 +26,7 @@ func scenUIMain(r *Run, racing bool) {
 	} else {
 		r.S.PanicProp = "C07"
 	}
-	w0, h0 := 12+t.Draw(109), 2+t.Draw(39)
+	w0, h0 := 12+t.Draw(109), drawHeight(r, o)
 	var startCmd, startArg string
 	if t.Chance(1, 4) {
 		startCmd, startArg = "feed", g.feedName()
@@ -114,7 +114,7 @@ func scenUIMain(r *Run, racing bool) {
 			var nw, nh int
 			switch t.Weighted(3, 2, 2) {
 			case 0:
-				nw, nh = drawWidth(r, o), 2+t.Draw(39)
+				nw, nh = drawWidth(r, o), drawHeight(r, o)
 			case 1:
 				p := sizes[t.Draw(len(sizes))]
 				nw, nh = p[0], p[1]
